@@ -29,7 +29,7 @@ use simcore::tokdiff::{build_tokens, diff_tokens};
 const PROPERTY: &str = "C04";
 const SC_SESSION: u64 = 401;
 const SC_BYZ: u64 = 402;
-const HANG_LIMIT: Duration = Duration::from_secs(60);
+const HANG_LIMIT: Duration = Duration::from_secs(120);
 
 // ------------------------------------------------------------------------------------ plans
 
